@@ -465,12 +465,51 @@ def _check_derived_linkage(prog, rep, f, defs, construct):
     return bad
 
 
+# expected parental genome contributions by cross design, along the matrix's parent axes in the order from_algmod fills them:
+# R x (F x M): half of the progeny genome from the recurrent parent, a quarter from each parent of the F1; (A x B) x (C x D): a quarter each
+EPGC = {"TwoWay": (0.5, 0.5), "Dihybrid": (0.5, 0.5), "ThreeWay": (0.5, 0.25, 0.25), "FourWay": (0.25, 0.25, 0.25, 0.25)}
+
+
+def check_epgc(prog, rep):
+    """R8-epgc: the usefulness criterion weights the parental breeding values with `vmat.epgc`; the tensor stored next to it is the variance of the progeny of
+    exactly that cross design, parent axes in from_algmod's order.  Each design's table is the pedigree's (EPGC), and the genetic and the genic matrix of one
+    design agree (sibling check)."""
+    seen = {}
+    for m in sorted(prog.modules.values(), key=lambda m_: m_.name):
+        if not m.name.startswith("pybrops.model.vmat."):
+            continue
+        for c in m.classes.values():
+            P = c.own_props.get("epgc")
+            f = P.getter if P is not None else None
+            if f is None:
+                continue
+            body = body_nodoc(f.node)
+            if len(body) == 1 and isinstance(body[0], ast.Raise):
+                continue
+            rep.saw(f)
+            construct = "%s.epgc" % c.qualname
+            design = [d for d in EPGC if d in c.name]
+            if not (len(body) == 1 and isinstance(body[0], ast.Return) and isinstance(body[0].value, ast.Tuple) and all(isinstance(e, ast.Constant) for e in body[0].value.elts)):
+                rep.unrec("R8-epgc", construct, "contribution table is not a constant tuple")
+                continue
+            val = tuple(e.value for e in body[0].value.elts)
+            want = EPGC[design[0]] if len(design) == 1 else ((0.5, 0.5) if not design else None)
+            if want is None:
+                rep.unrec("R8-epgc", construct, "cross design of %s not known" % c.name)
+                continue
+            if val != want:
+                rep.violate("R8-epgc", construct, "expected parental genome contributions are %s; the progeny of this design (%s) carry %s of their parents along the parent axes: the "
+                            "usefulness criterion weights the parents' breeding values with the wrong shares" % (val, design[0] if design else "two-way", want), where(f), str(want), str(val))
+            else:
+                rep.ok("R8-epgc", construct, "contributions %s match the pedigree of the design" % (val,))
+
+
 def run(prog, rep, tier):
     rep.explanation = ("Branch-by-branch spec congruence of the linkage-decay terms (algebraic normal form), tiling and slice-coupling rules over the chunked double sums of "
                        "all sixteen from_algmod builders, rank / initialisation analysis of the result tensors, and the usefulness-criterion formula. These are necessary "
                        "conditions; equality with exhaustive gamete enumeration is a numerical identity outside static reach.")
     rep.not_decided = ["the tensor identity itself (equality with exhaustive gamete enumeration)", "the algebra of the block products (e.g. M + M' for mirrored trait blocks)"]
-    rep.only_rules = {"R1-linkage", "R2-tiling", "R3-coupling", "R4-storage", "R6-chunks", "R5-usefulness"}
+    rep.only_rules = {"R1-linkage", "R2-tiling", "R3-coupling", "R4-storage", "R6-chunks", "R5-usefulness", "R8-epgc"}
     for r, n in (("R1-linkage", 12), ("R2-tiling", 7), ("R3-coupling", 7), ("R4-storage", 14), ("R6-chunks", 2)):
         rep.floor(r, n)
     check_linkage(prog, rep)
@@ -482,4 +521,6 @@ def run(prog, rep, tier):
     # the usefulness criterion is built from the variance at the requested selfing depth: arguments reach _calc_uc in its parameter order
     c05.check_positional(prog, rep, rule="R5-usefulness", modules=("UsefulnessCriterion",))
     rep.floor("R5-usefulness", 8)
+    rep.floor("R8-epgc", 9)
+    check_epgc(prog, rep)
     wire(prog, rep, "C12", 8, 320)
